@@ -92,6 +92,8 @@ pub struct SpellOpts {
     pub tight_trivia: bool,
     /// comment bodies that end in a run of '*' before the closing ')'
     pub star_comments: bool,
+    /// `// ...` comments to the end of the line (the lexer of this code base knows them)
+    pub line_comments: bool,
     /// blanks only (no line breaks / comments) – mild C01 spelling
     pub mild: bool,
     /// comments that look like OSCAT description markers / blocks (text preprocessor): 0 = none so
@@ -113,6 +115,7 @@ impl SpellOpts {
             non_ascii: false,
             tight_trivia: false,
             star_comments: false,
+            line_comments: false,
             mild: false,
             oscat_phase: std::cell::Cell::new(255),
         }
@@ -132,6 +135,7 @@ impl SpellOpts {
             non_ascii: true,
             tight_trivia: false,
             star_comments: false,
+            line_comments: false,
             mild: false,
             oscat_phase: std::cell::Cell::new(0),
         }
@@ -279,7 +283,15 @@ fn trivia(t: &mut Tape, o: &SpellOpts, canonical: &str, may_be_empty: bool) -> S
                 }
             }
             5 | 6 => {
-                if o.comments {
+                if o.comments && o.line_comments && t.ratio(1, 5) {
+                    // a comment to the end of the line; its text may look like anything but a pragma
+                    // or an OSCAT marker (those are the text preprocessor's business)
+                    let body = if o.non_ascii && t.ratio(1, 4) { *t.pick(NON_ASCII_BODIES) } else { *t.pick(&["", " ", " note", " x := 1;", " (* not a block comment", " *) ", " 'quote", " END_IF", " // again", "/", " a * b "]) };
+                    // (a blank first: directly behind the operator `/` the lexer would - rightly - read `///`)
+                    s.push_str(" //");
+                    s.push_str(body);
+                    s.push_str(if o.crlf && t.flag() { "\r\n" } else { "\n" });
+                } else if o.comments {
                     s.push_str(&comment(t, o))
                 } else {
                     s.push(' ')
@@ -343,7 +355,13 @@ pub fn layout(lexemes: &[Lexeme], o: &SpellOpts, t: &mut Tape) -> (Layout, Vec<S
             while k < b.len() {
                 let st = k;
                 let kind;
-                if b[k] == b'(' {
+                if b[k] == b'/' {
+                    // line comment: to the end of the line, the line break is a piece of its own
+                    while k < b.len() && b[k] != b'\n' && b[k] != b'\r' {
+                        k += 1;
+                    }
+                    kind = TriviaKind::Comment;
+                } else if b[k] == b'(' {
                     // comment: find "*)" after "(*"
                     let close = tv[k + 2..].find("*)").map(|p| k + 2 + p + 2).unwrap_or(b.len());
                     // bodies never contain "*)", so the first "*)" is the terminator
